@@ -103,7 +103,7 @@ def run(ctx):
     ctx.rule = RULE
     rng = ctx.rng
     n = ctx.n(700, 100000)
-    sweep = list(range(0, 70)) if ctx.shard == 0 else []
+    sweep = [p_ for p_ in range(0, 70) for _ in range(6)] if ctx.shard == 0 else []
     for i in range(n + len(sweep)):
         ik = rng.choice(KINDS)
         sk = rng.choice(KINDS)
@@ -124,7 +124,7 @@ def run(ctx):
         form, fl = pkts.name_form(rng, key_name)
         which = rng.choice(['derive', 'derive', 'derive', 'self', 'req'])
         if i >= n:
-            which = ['derive', 'self', 'req'][i % 3]
+            which = ['derive', 'self', 'req'][(i - n) % 3]
         w = {'fn': which, 'issuer_key': ik, 'subject_key': sk, 'key_name': [c.hex() for c in key_name], 'form': fl}
         t0 = int(time.time() * 1000)
         try:
